@@ -16,6 +16,7 @@ G = 1.0 / 64.0
 DUR = [0.0, 0.0, G, 0.25, 0.5, 1.0, 2.0]
 DEADLINES = [0.0, 0.25, 0.5, 1.0, 2.0, 5.0, 1000.0, 1000.0, 1000.0]
 STRAT_VALUES = [0.0, G, 0.25, 0.5, 1.0, 3.0, "nan", "inf", "-inf", -1.0, -0.0, 1e9]
+STRAT_VALUES_HUGE = STRAT_VALUES + ["hugeint", 7, 10**30]
 OVERSHOOT = [0.0, 0.0, 0.0, G, 0.25, 1.0]
 SPECIALS_ALL = ["abort", "cancel", "kbd", "sysexit", "nested_exh", "nested_open", "genexit", "base"]
 
